@@ -3,6 +3,7 @@ package main
 import (
 	"fmt"
 	"go/types"
+	"regexp"
 	"sort"
 	"strings"
 
@@ -193,8 +194,19 @@ func qual(p *types.Package) string {
 	return p.Name()
 }
 
+var canonRe = regexp.MustCompile(`\b(byte|rune|any)\b`)
+
 func typeName(t types.Type) string {
-	return types.TypeString(t, qual)
+	s := types.TypeString(t, qual)
+	return canonRe.ReplaceAllStringFunc(s, func(m string) string {
+		switch m {
+		case "byte":
+			return "uint8"
+		case "rune":
+			return "int32"
+		}
+		return "interface{}"
+	})
 }
 
 // fieldComp is the heap component holding field i of struct type t.
